@@ -8,6 +8,10 @@ use crate::internal::error::{fail, Result};
 
 pub const BUFFER_SIZE_I128: usize = 64;
 
+/// The size of a buffer that can hold any `i128` formatted with any `i8` scale:
+/// the sign, up to 39 digits and up to 128 additional zeros
+pub const FORMAT_BUFFER_SIZE_I128: usize = 1 + 39 + 128;
+
 /// Helper to parse decimals
 ///
 /// This enum maps the tree major cases:
